@@ -84,24 +84,36 @@ def rule_cicp_layout(ctx):
     if buf is None:
         ctx.anchor_missing(rid, "the append_tag_with_data(.., *b\"cicp\", ..) call of the synthesiser")
         return
-    w_off = None
-    for b, t in w.calls():
-        c = callee(t)
-        if not c or not c["fn"].split("::")[-1] in ("index_mut", "index", "get_mut") or len(t[2]) != 2:
-            continue
-        if root_of(w, wd, op_local(t[2][0])) != buf:
-            continue
-        st = range_start(w, wd, op_local(t[2][1]))
-        # what is copied into that sub-slice: a constant signature, or the code points
-        dest = t[3][0] if t[3] else None
-        for b2, t2 in w.calls():
-            c2 = callee(t2)
-            if c2 and c2["fn"].endswith("copy_from_slice") and t2[2] and root_of(w, wd, op_local(t2[2][0])) == dest:
-                src = root_of(w, wd, op_local(t2[2][1]))
-                sd = wd.single(src) if src is not None else None
-                is_const = bool(sd and sd[2] == "assign" and sd[3][2][0] == "use" and op_const(sd[3][2][1]) is not None)
-                if not is_const:
-                    w_off = st
+    def payload_offset(w, wd, buf):
+        off = None
+        for b, t in w.calls():
+            c = callee(t)
+            if not c or not c["fn"].split("::")[-1] in ("index_mut", "index", "get_mut") or len(t[2]) != 2:
+                continue
+            if buf is not None and root_of(w, wd, op_local(t[2][0])) != buf:
+                continue
+            st = range_start(w, wd, op_local(t[2][1]))
+            # what is copied into that sub-slice: a constant signature, or the code points
+            dest = t[3][0] if t[3] else None
+            for b2, t2 in w.calls():
+                c2 = callee(t2)
+                if c2 and c2["fn"].endswith("copy_from_slice") and t2[2] and root_of(w, wd, op_local(t2[2][0])) == dest:
+                    src = root_of(w, wd, op_local(t2[2][1]))
+                    sd = wd.single(src) if src is not None else None
+                    is_const = bool(sd and sd[2] == "assign" and sd[3][2][0] == "use" and op_const(sd[3][2][1]) is not None)
+                    if not is_const:
+                        off = st
+        return off
+
+    w_off = payload_offset(w, wd, buf)
+    if w_off is None:
+        # the tag data is built by a private helper (`create_cicp(code_points) -> [u8; 12]`): look inside it
+        bd = wd.single(buf)
+        hc = callee(bd[3]) if bd and bd[2] == "call" else None
+        h = col.fns.get(hc.get("res") or hc["fn"]) or col.fns.get(hc["fn"]) if hc else None
+        if h is not None:
+            ctx.seen(h)
+            w_off = payload_offset(h, Defs(h), None)
     # ---- reader: the Option<[u8; 4]> whose element is compared with the transfer codes
     rd = Defs(r)
     cmp_sites = []
@@ -179,6 +191,33 @@ def rule_cicp_layout(ctx):
                         else:
                             break
     idxs = {i for _, i, _, _ in cmp_sites}
+    if t_idx is None:
+        # not an array literal of call results (`?`, named constants ..): evaluate cicp() for two transfer functions and see which
+        # element changes
+        from .. import absint
+        adt_e = img.adts.get("jxl_image::color::EnumColourEncoding")
+
+        def ev_cicp(tf):
+            def enum(ty, name):
+                a = img.adts.get("jxl_image::color::" + ty)
+                for i, v in enumerate(a["variants"] if a else []):
+                    if v["name"] == name:
+                        return absint.Enum("jxl_image::color::" + ty, i, name, [0] * len(v["fields"]))
+            vals = {"colour_space": enum("ColourSpace", "Rgb"), "white_point": enum("WhitePoint", "D65"), "primaries": enum("Primaries", "Bt2100"),
+                    "tf": enum("TransferFunction", tf), "rendering_intent": enum("RenderingIntent", "Relative")}
+            e = absint.Evaluator(ctx.prog)
+            fr = absint.Frame(ec)
+            e.frames[fr.id] = fr
+            fr.env[10 ** 6] = absint.Struct([vals.get(x[0]) for x in adt_e["variants"][0]["fields"]])
+            r_ = e.call_fn(ec, [absint.Ref(("local", fr.id, 10 ** 6))])
+            return tuple(r_.fields[0]) if isinstance(r_, absint.Enum) and r_.name == "Some" else None
+        try:
+            a_, b_ = ev_cicp("Pq"), ev_cicp("Hlg")
+            diff = [i for i in range(4) if a_ and b_ and a_[i] != b_[i]]
+            if len(diff) == 1:
+                t_idx = diff[0]
+        except (absint.Unsupported, TypeError, KeyError, IndexError, AttributeError):
+            pass
     if t_idx is None:
         ctx.bad(rid, "index-not-evaluable", "cannot find the position of the transfer characteristic in EnumColourEncoding::cicp()", fn=ec)
     elif idxs == {t_idx}:
